@@ -80,4 +80,54 @@ open XV.Model.SerEngine in
 def loadOps (base bufSize : Nat) (ld : List Atom) (stream : List Nat) : Except Err (List Val) :=
   loadVals base bufSize stream (ld.filterMap atomShape)
 
+
+-- ------------------------------------------------------------------ references to datatype validators (storeDV / loadDV)
+/-- a datatype validator as far as storeDV/loadDV are concerned: its identity (address), local name, namespace -/
+structure DV where
+  id : Nat
+  localName : Nat
+  uri : Nat
+  deriving DecidableEq, Repr
+
+/-- the static built-in registry: keyed by LOCAL name only, value = identity of the shared built-in validator -/
+abbrev Registry := List (Nat × Nat)
+
+def regGet : Registry → Nat → Option Nat
+  | [], _ => none
+  | (n, i) :: r, k => if n = k then some i else regGet r k
+
+/-- what storeDV puts on the stream -/
+inductive DVRef
+  | null                    -- DV_ZERO
+  | builtin (name : Nat)    -- DV_BUILTIN + local name
+  | byValue (dv : DV)       -- DV_NORMAL + type + the object itself (through the engine's object pool)
+  deriving DecidableEq, Repr
+
+/-- `test` = `XV.Gen.SerConsts.storeDVBuiltinTest`: 1 identity, otherwise "a built-in of this local name exists" -/
+def storeDV (test : Nat) (reg : Registry) : Option DV → DVRef
+  | none => .null
+  | some dv =>
+    let isBuiltin := if test == 1 then regGet reg dv.localName == some dv.id else (regGet reg dv.localName).isSome
+    if isBuiltin then .builtin dv.localName else .byValue dv
+
+/-- what loadDV hands back -/
+inductive Loaded
+  | null
+  | shared (id : Nat)       -- the shared built-in validator with this identity
+  | copy (dv : DV)          -- the restored copy of a by-value validator (its own identity, see graph_roundtrip)
+  deriving DecidableEq, Repr
+
+def loadDV (reg : Registry) : DVRef → Loaded
+  | .null => .null
+  | .builtin n => match regGet reg n with
+      | some i => .shared i
+      | none => .null
+  | .byValue dv => .copy dv
+
+/-- the specification: a reference to the built-in registered under its own local name is restored as that very object,
+every other validator — in particular a user type whose local name equals a built-in's — as its own copy -/
+def dvExpected (reg : Registry) : Option DV → Loaded
+  | none => .null
+  | some dv => if regGet reg dv.localName = some dv.id then .shared dv.id else .copy dv
+
 end XV.Model.SerOps
